@@ -9,6 +9,7 @@ from fractions import Fraction
 import z3
 
 from . import terms as T
+from .canon import Canon
 
 MAX_LEMMA_ATOMS = 400
 
@@ -21,10 +22,14 @@ class Stats(object):
         self.unknown = 0
         self.seconds = 0.0
         self.max_seconds = 0.0
+        self.linear_queries = 0
+        self.linear_unsat = 0
 
     def as_dict(self):
         return dict(queries=self.queries, sat=self.sat, unsat=self.unsat,
                     unknown=self.unknown, solver_seconds=round(self.seconds, 3),
+                    linear_stage_queries=self.linear_queries,
+                    linear_stage_unsat=self.linear_unsat,
                     max_query_seconds=round(self.max_seconds, 3))
 
 
@@ -33,6 +38,8 @@ class Solver(object):
         self.timeout_ms = timeout_ms
         self.stats = Stats()
         self._z = {}          # term id -> z3 expr
+        self._zl = {}         # term id -> z3 expr (linear abstraction)
+        self._canon = Canon()
         self._atom_var = {}   # atom term id -> z3 Real
         self._atoms = {}      # atom term id -> Term
         self._lemma_cache = {}  # atom term id -> (list of z3 lemmas, [new atom terms])
@@ -100,6 +107,109 @@ class Solver(object):
         if op == 'false':
             return z3.BoolVal(False)
         raise TypeError(op)
+
+    # ------------------------------------------------- linear abstraction
+    def zl(self, t):
+        """Linear-abstraction encoding (see canon.py): const + sum coeff * M
+        with opaque canonical monomials M.  Validity under this encoding
+        implies validity under the precise one."""
+        r = self._zl.get(t.id)
+        if r is not None:
+            return r
+        op = t.op
+        if op in ('<', '<=', '=='):
+            d = self._canon.lin(t.args[0]).plus(
+                self._canon.lin(t.args[1]), -1)
+            e = self._lin_expr(d)
+            zero = z3.RealVal(0)
+            r = e < zero if op == '<' else (e <= zero if op == '<=' else
+                                           e == zero)
+        elif op == 'not':
+            r = z3.Not(self.zl(t.args[0]))
+        elif op == 'and':
+            r = z3.And(*[self.zl(a) for a in t.args])
+        elif op == 'or':
+            r = z3.Or(*[self.zl(a) for a in t.args])
+        elif op == 'true':
+            r = z3.BoolVal(True)
+        elif op == 'false':
+            r = z3.BoolVal(False)
+        else:
+            r = self._lin_expr(self._canon.lin(t))
+        self._zl[t.id] = r
+        return r
+
+    def _lin_expr(self, l):
+        c = l.const
+        e = z3.RealVal(str(c.numerator)) / z3.RealVal(str(c.denominator)) \
+            if c.denominator != 1 else z3.RealVal(str(c.numerator))
+        for k, v in l.coef.items():
+            m = z3.Real('$m%d' % k)
+            if v == 1:
+                e = e + m
+            else:
+                cv = z3.RealVal(str(v.numerator)) / z3.RealVal(
+                    str(v.denominator)) if v.denominator != 1 else \
+                    z3.RealVal(str(v.numerator))
+                e = e + cv * m
+        return e
+
+    def _nonzero_facts(self, conds):
+        """Base ids entailed non-zero by the assumptions (syntactically:
+        0 < t, t < 0, not (t <= 0), not (0 <= t), not (t == 0)); exp(.)
+        and pi are always non-zero."""
+        nz = set()
+        for rounds in range(2):
+            cn = Canon(nz)
+            for c in conds:
+                for t in _nonzero_terms(c):
+                    nz |= cn.nonzero_bases(t)
+        return nz
+
+    def _positive_facts(self, conds, nz):
+        pos = set()
+        for rounds in range(2):
+            cn = Canon(nz, positive=pos)
+            for c in conds:
+                t = None
+                if c.op == '<' and c.args[0] is T.ZERO:
+                    t = c.args[1]
+                elif c.op == 'not' and c.args[0].op == '<=' and \
+                        c.args[0].args[1] is T.ZERO:
+                    t = c.args[0].args[0]
+                if t is not None:
+                    b = cn.positive_base(t)
+                    if b is not None:
+                        pos.add(b)
+        return pos
+
+    def _solve_linear(self, conds):
+        nz = self._nonzero_facts(conds[:-1])
+        pos = self._positive_facts(conds[:-1], nz)
+        first = Canon(nz, positive=pos)
+        for c in conds:
+            for u in T.subterms([c]):
+                if u.op in ('<', '<=', '=='):
+                    first.lin(u.args[0])
+                    first.lin(u.args[1])
+        self._canon = Canon(nz, first.structural_sums(), positive=pos)
+        self._zl = {}
+        s = z3.Solver()
+        s.set('timeout', 5000)
+        for c in conds:
+            if c is not T.TRUE:
+                s.add(self.zl(c))
+        t0 = time.time()
+        r = s.check()
+        dt = time.time() - t0
+        self.stats.queries += 1
+        self.stats.seconds += dt
+        self.stats.linear_queries += 1
+        if r == z3.unsat:
+            self.stats.unsat += 1
+            self.stats.linear_unsat += 1
+            return 'unsat'
+        return 'other'
 
     # ------------------------------------------------------------ lemmas
     def _atom_lemmas(self, a):
@@ -237,11 +347,11 @@ class Solver(object):
         return atoms, lemmas
 
     # ------------------------------------------------------------ queries
-    def _solve(self, conds, want_model=False, timeout_ms=None):
+    def _solve(self, conds, want_model=False, timeout_ms=None, roots=()):
         conds = [c for c in conds if c is not T.TRUE]
         if any(c is T.FALSE for c in conds):
             return 'unsat', None
-        atoms, lemmas = self._closure(conds)
+        atoms, lemmas = self._closure(conds + list(roots))
         s = z3.Solver()
         s.set('timeout', int(timeout_ms or self.timeout_ms))
         for c in conds:
@@ -276,6 +386,11 @@ class Solver(object):
         st.unknown += 1
         return 'unknown', None
 
+    def lemma_terms(self, roots):
+        """The instantiated lemmas (boolean Terms) a query over ``roots``
+        would assert."""
+        return self._closure(list(roots))[1]
+
     def feasible(self, conds):
         return self._solve(conds)[0]
 
@@ -287,6 +402,9 @@ class Solver(object):
         ('proved', None) | ('refuted', env) | ('unknown', None)."""
         if goal is T.TRUE:
             return 'proved', None
+        # stage 1: linear arithmetic over opaque non-linear sub-terms
+        if self._solve_linear(list(assumptions) + [T.lnot(goal)]) == 'unsat':
+            return 'proved', None
         r, env = self._solve(list(assumptions) + [T.lnot(goal)],
                              want_model=True, timeout_ms=timeout_ms)
         if r == 'unsat':
@@ -294,6 +412,34 @@ class Solver(object):
         if r == 'sat':
             return 'refuted', env
         return 'unknown', None
+
+
+def _nonzero_terms(c):
+    op = c.op
+    if op == '<':
+        a, b = c.args
+        if a is T.ZERO:
+            yield b
+        elif b is T.ZERO:
+            yield a
+    elif op == 'not':
+        d = c.args[0]
+        if d.op == '<=':
+            a, b = d.args
+            if a is T.ZERO:
+                yield b
+            elif b is T.ZERO:
+                yield a
+        elif d.op == '==':
+            a, b = d.args
+            if a is T.ZERO:
+                yield b
+            elif b is T.ZERO:
+                yield a
+    elif op == 'and':
+        for a in c.args:
+            for t in _nonzero_terms(a):
+                yield t
 
 
 def _num(v):
